@@ -69,6 +69,7 @@ func (P *Program) FlowToTerminal(v ssa.Value, isTerminal func(c ssa.CallInstruct
 type flower struct {
 	P          *Program
 	isTerminal func(c ssa.CallInstruction, arg int) bool
+	storeTerminal func(st *ssa.Store) bool
 	onPath     map[ssa.Value]bool
 	dropped    []string
 	terminals  []ssa.Instruction
@@ -165,6 +166,11 @@ func (f *flower) flow(v ssa.Value, acc litSet, depth int) (bool, litSet) {
 				continue
 			}
 			a2 := acc.union(f.blockLits(x))
+			if f.storeTerminal != nil && f.storeTerminal(x) {
+				f.terminals = append(f.terminals, x)
+				merge(true, a2)
+				continue
+			}
 			// where is it stored?
 			switch addr := x.Addr.(type) {
 			case *ssa.IndexAddr:
@@ -229,6 +235,13 @@ func (f *flower) flow(v ssa.Value, acc litSet, depth int) (bool, litSet) {
 		}
 	}
 	return reached, result
+}
+
+// FlowToStore follows v forward until it is stored by a Store instruction accepted by isSink.
+func (P *Program) FlowToStore(v ssa.Value, isSink func(st *ssa.Store) bool) FlowResult {
+	f := &flower{P: P, isTerminal: func(ssa.CallInstruction, int) bool { return false }, storeTerminal: isSink, onPath: map[ssa.Value]bool{}}
+	ok, g := f.flow(v, litSet{}, 0)
+	return FlowResult{Reached: ok, Guards: g, Dropped: f.dropped, Terminals: f.terminals}
 }
 
 // flowContainer: a value was stored into (part of) the object addressed by base.
